@@ -21,6 +21,7 @@
 #include <gmssl/ec.h>
 #include <gmssl/mem.h>
 #include <gmssl/x509_alg.h>
+#include <gmssl/verif.h>
 
 
 int sm2_key_generate(SM2_KEY *key)
@@ -31,7 +32,10 @@ int sm2_key_generate(SM2_KEY *key)
 	}
 
 	// rand sk in [1, n-2]
-	do {
+	do
+	VERIF_LOOP_ASSIGNS(VERIF_OBJ_UPTO((uint8_t *)key->private_key, 32), VERIF_OBJ_WHOLE(verif_k_drawn), verif_rand_calls, verif_rand_fail)
+	VERIF_LOOP_INVARIANT(verif_rand_fail == VERIF_LOOP_ENTRY(verif_rand_fail))
+	{
 		if (sm2_z256_rand_range(key->private_key, sm2_z256_order_minus_one()) != 1) {
 			error_print();
 			return -1;
